@@ -3,6 +3,8 @@ import StoneVerif.Lemmas.RtCompatBwd6
 import StoneVerif.Lemmas.RtCompatRefl
 import StoneVerif.Lemmas.RtCompatStrict
 import StoneVerif.Lemmas.RtCompatTrans
+import StoneVerif.Lemmas.RtCompatEdits
+import StoneVerif.Lemmas.RtCompatRename
 import StoneVerif.Props.C06
 /-!
 Property theorems for C07: backwards-compatible changes (docs/evolve_spec.rst) keep peers interoperable.
@@ -145,6 +147,66 @@ theorem sub_trans {ρ₁ ρ₂ : Rho} {A B C : Env} {tA tB tC : PTy} (h1 : subB 
   simp only [subB, Bool.and_eq_true] at h1 h2 ⊢
   exact ⟨compatEnv_trans h1.1 ⟨h2.1, hB, hC⟩, tySub_trans (compatEnv_wf h2.1) _ _ _ h1.2 h2.2⟩
 
+/-! ## Each listed edit yields `subB`
+
+Class level (any correspondence): the edited pair of classes satisfies `structSub` / `unionSub`; environment level for the
+two edits that touch many classes at once (a field added to a class is inherited by all its descendants; a renaming changes
+every reference). -/
+
+/-- adding optional (`T?`) or defaulted fields, anywhere along the chain -/
+theorem edit_add_optional_field {ρ : Rho} {A B : Env} {a b : String} {sa sb : StructDef}
+    (hsa : A.struct? a = some sa) (hsb : B.struct? b = some sb)
+    (hnd : nodupS (sb.allAttrs.map (·.name)) = true)
+    (hkeep : ∀ f ∈ sa.allAttrs, f ∈ sb.allAttrs)
+    (hnew : ∀ g ∈ sb.allAttrs, g ∈ sa.allAttrs ∨ newFieldOk B g = true)
+    (hty : ∀ f ∈ sa.allAttrs, tySub ρ f.ty f.ty = true)
+    (hsub : sa.subtypes = none ∧ sb.subtypes = none) :
+    structSub ρ A B a b = true :=
+  StoneVerif.Rt.Compat.edit_add_optional_field hsa hsb hnd hkeep hnew hty hsub
+
+/-- the same edit on a whole environment: the field is inserted into the level of `cls` in every chain that contains it -/
+theorem edit_add_optional_field_env {A : Env} (hA : envWF A = true) (g : FieldDef) (cls : String) (pos : Nat)
+    (hB : envWF (addFieldEnv A g cls pos) = true) (hg : newFieldOk (addFieldEnv A g cls pos) g = true) {t : PTy}
+    (ht : tyWF A t = true) :
+    subB (Rho.idOf A) A (addFieldEnv A g cls pos) t t = true := by
+  simp [subB, edit_add_field_env hA g cls pos hB hg, tySub_refl t ht]
+
+/-- adding tags to an open union -/
+theorem edit_add_tag_open {ρ : Rho} {A B : Env} {a b : String} {ua ub : UnionDef}
+    (hua : A.union? a = some ua) (hub : B.union? b = some ub)
+    (hnd : nodupS ((UnionDef.allTags ub).map (·.name)) = true)
+    (hca : ua.catchAll = ub.catchAll) (hopen : ua.catchAll.isSome = true)
+    (hkeep : ∀ t ∈ UnionDef.allTags ua, t ∈ UnionDef.allTags ub)
+    (hty : ∀ t ∈ UnionDef.allTags ua, tySub ρ t.ty t.ty = true) :
+    unionSub ρ A B a b = true :=
+  StoneVerif.Rt.Compat.edit_add_tag_open hua hub hnd hca hopen hkeep hty
+
+/-- giving Void tags a type -/
+theorem edit_void_to_typed {ρ : Rho} {A B : Env} {a b : String} {ua ub : UnionDef}
+    (hua : A.union? a = some ua) (hub : B.union? b = some ub) (hca : ua.catchAll = ub.catchAll)
+    (hpair : ∀ t ∈ UnionDef.allTags ua, ∃ t', findTag t.name (UnionDef.allTags ub) = some t' ∧ t.omitted = t'.omitted ∧
+      (tySub ρ t.ty t'.ty = true ∨ (isVoidT t.ty = true ∧ ua.catchAll ≠ some t.name)))
+    (hnames : ∀ t' ∈ UnionDef.allTags ub, (findTag t'.name (UnionDef.allTags ua)).isSome = true) :
+    unionSub ρ A B a b = true :=
+  StoneVerif.Rt.Compat.edit_void_to_typed hua hub hca hpair hnames
+
+/-- adding subtypes under a catch-all root -/
+theorem edit_add_subtype_catch_all {ρ : Rho} {A B : Env} {a b : String} {sa sb : StructDef} {xa xb : List SubEntry}
+    (hsa : A.struct? a = some sa) (hsb : B.struct? b = some sb)
+    (hnd : nodupS (sb.allAttrs.map (·.name)) = true)
+    (hattrs : sa.allAttrs = sb.allAttrs) (hty : ∀ f ∈ sa.allAttrs, tySub ρ f.ty f.ty = true)
+    (hxa : sa.subtypes = some xa) (hxb : sb.subtypes = some xb)
+    (hca : sa.catchAll = true) (hcb : sb.catchAll = true)
+    (hkeep : ∀ e ∈ xa, ∃ e', findSub e.1 xb = some e' ∧ ρ.rel e.2.1 e'.2.1 = true ∧ e.2.2 = e'.2.2) :
+    structSub ρ A B a b = true :=
+  StoneVerif.Rt.Compat.edit_add_subtype_catch_all hsa hsb hnd hattrs hty hxa hxb hca hcb hkeep
+
+/-- renaming types (one-to-one), on a whole environment; routes and aliases do not occur in environments at all (adding a
+route, introducing or inlining an alias leaves the validator trees, hence `A` and `B`, identical: `sub_refl`) -/
+theorem edit_rename {A : Env} (hA : envWF A = true) (r : String → String) (hinj : RenInj r A) {t : PTy}
+    (ht : tyWF A t = true) : subB (Rho.ofRen r A) A (renEnv r A) t (renTy r t) = true := by
+  simp [subB, edit_rename_env hA r hinj, tySub_ren t ht]
+
 /-- the A-view of `None` is `None` at every type -/
 theorem view_none (ρ : Rho) (A : Env) (t : PTy) : view ρ A t .none = .none :=
   StoneVerif.Rt.Compat.view_none ρ A t
@@ -244,5 +306,17 @@ example : compatEnv [("ns.U", "ns.U")] (envU tagsU (some "other")) (envU [⟨"v"
   decide +kernel                                                                                        -- Void tag given a type
 example : compatEnv [("ns.S", "ns.Renamed")] (envS [fA]) ⟨[⟨"ns.Renamed", [⟨"ns.Renamed", [fA]⟩], none, false⟩], []⟩ = true := by
   decide +kernel                                                                                        -- rename
+
+/-- the environment-level edit lemmas apply to concrete edits -/
+example : addFieldEnv (envS [fA]) fB "ns.S" 1 = envS [fA, fB] ∧ envWF (envS [fA]) = true ∧ envWF (envS [fA, fB]) = true ∧
+    newFieldOk (envS [fA, fB]) fB = true := ⟨rfl, by decide +kernel, by decide +kernel, by decide +kernel⟩
+example : RenInj (fun c => if c == "ns.S" then "ns.Renamed" else c) envA ∧
+    ((renEnv (fun c => if c == "ns.S" then "ns.Renamed" else c) envA).struct? "ns.Renamed").isSome = true ∧
+    renTy (fun c => if c == "ns.S" then "ns.Renamed" else c) (.list {} (.struct {} "ns.S") none none) =
+      .list {} (.struct {} "ns.Renamed") none none := by
+  refine ⟨?_, by decide +kernel, rfl⟩
+  intro p hp q hq
+  simp [Rho.idOf, envA] at hp hq
+  rcases hp with rfl | rfl | rfl | rfl | rfl <;> rcases hq with rfl | rfl | rfl | rfl | rfl <;> decide
 
 end StoneVerif.C07
